@@ -156,7 +156,7 @@ def run(ctx):
     ctx.sample({"impl": cases[7]["impl"], "inputs": {k: v["shape"] for k, v in cases[7]["inputs"].items()}, "dtype": cases[7]["meta"]["dtype"]})
     f = ctx.work / "C11_static.v"
     f.write_text((core.COQ / "Props" / "C11.v").read_text())
-    ctx.compile("Props/C11.v: roll index vector = NumPy's for every extent and shift; flip reverses (through slice_1d); every re-indexing operator is natural in the element type (dtype- and field-independent)", f, kind="theorem")
+    ctx.compile("Props/C11.v: roll index vector = NumPy's for every extent and shift; flip reverses (through slice_1d) and, n-D, C11_flip_nd: for every tensor of every rank the lowering of flip returns the input with every flipped coordinate i replaced by n-1-i (on top of C08_getitem_nd); every re-indexing operator is natural in the element type (dtype- and field-independent)", f, kind="theorem")
     ctx.coverage.update({
         "rule": "in-Coq correspondence: 13 layout functions x random parameters (axes incl. negative, tuples, shifts up to 10^6, -1 in reshape) on int64 token tensors ranks 0-4 extents {0,1,2,3,4}; NumPy sweep: 16 functions x 8 dtypes (int, float, bool, string, nullable int/float/string) with index-token data, masks moved alongside values, eager and traced with symbolic dims. Distinct by (call, shapes, dtype).",
         "distribution": {"oracle_cases": len(cases)}})
